@@ -235,6 +235,11 @@ class DirectMethod:
     def fill_placeholders_t(self, phase, stage, expr, *args):
         return None
     
+    def fill_placeholders_value(self, phase, stage, expr, *args):
+        # A non-signal expression of a stage, evaluated with that stage's own variables and parameters
+        if phase==1: return
+        return self.eval(stage, expr)
+
     def fill_placeholders_DT(self, phase, stage, expr, *args):
         return None
 
